@@ -107,6 +107,7 @@ class Analysis(object):
         self.cbs = []
         self.pkts = []
         self.i_end_begin = None
+        self.stall_total = 0.0       # seconds the reactor was blocked (schedule dimension)
         self.i_endmark = None
         self.end = None
         self._index()
@@ -195,6 +196,8 @@ class Analysis(object):
                 self.conn(e["conn"]).i_lost_done = e["i"]
             elif k == "snap":
                 self.snaps[e["step"]] = e
+            elif k == "stall":
+                self.stall_total += e["dt"]
             elif k == "exc":
                 self.excs.append(e)
             elif k == "cb":
@@ -234,6 +237,10 @@ class Analysis(object):
                     c.sp = p["session"]
                     cp = connects[k]["pkt"]
                     c.clean, c.level, c.keepalive = cp["clean"], cp.get("level", 4), cp["keepalive"]
+                    # the keepalive the application asked for (what C13/C15 go by), when the call is known
+                    call = self.calls.get(connects[k].get("api"))
+                    if call is not None and isinstance(call["info"].get("keepalive"), int) and not call["info"].get("raw"):
+                        c.keepalive = call["info"]["keepalive"]
                     c.i_connect_accepted = connects[k]["i"]
                     break
                 if c.i_refused is None:
